@@ -92,14 +92,14 @@ class C16(Engine):
         "'reports an error' is satisfied by a non-zero return code OR a message on stderr",
         "index rules are bash's: dirs lists cwd as entry 0; +N counts from the left, -N from the right, both from zero; $PUSHD_MINUS swaps the two signs; pushd +-N ROTATES the whole list (the help text says so); popd +-N removes one entry; pushd with no argument swaps the top two",
         "forms whose meaning differs between shells are generated but only the invariants are judged: `pushd -n` with an index or without argument, `popd -n +0`, relative arguments to `pushd -n`, an empty-string argument, targets where the logical (`..` folded textually) and the physical resolution differ, $CDPATH lookups whose first match is not a usable directory while a later one is, everything while the current directory has been removed",
-        "after an external change (fault, raw chdir, cd() block) the shell's own resynchronisation BaseShell._fix_cwd() is called, as the prompt loop does after every command, and then $PWD must name the cwd again",
+        "after an external change (fault, raw chdir, cd() block) the shell's own resynchronisation BaseShell._fix_cwd() is called, as the prompt loop does after every command, and then $PWD must name the cwd again; in 60% of the cases it is also called after every builtin (prompt-loop mode), where it must leave a shell that is in step alone",
         "the round trip `pushd d; popd` is only judged when the stack is not full ($DIRSTACK_SIZE truncation legitimately drops the oldest entry)",
     ]
     components = {
         "real": ["xonsh.dirstack cd / pushd / popd / dirs (alias callables incl. argparse front end) / with_pushd / _change_working_directory / _try_cdpath", "BaseShell._fix_cwd", "built_ins.XonshPathLiteral.cd() context manager", "Env ($PWD, $OLDPWD, $CDPATH as EnvPath, ...)", "real directory tree, real chdir/getcwd, kernel permission checks (uid 65534)"],
         "stub": ["os.chdir failure injection (proxy in xonsh.dirstack only)", "the shell object passed to _fix_cwd (print_color only)", "no prompt loop: steps call the builtins directly"],
     }
-    expected_probes = ["stack_ge3", "stack_full_truncated", "pushd_minus", "auto_pushd_push", "chdir_fault_fired", "fs_fault_applied", "target_unsearchable", "stack_entry_vanished", "cwd_removed", "cwd_renamed", "must_fail_ops", "rotation_ops", "cdpath_hit", "symlink_target", "ctx_block", "ctx_body_moves", "roundtrip_judged", "fixcwd_resynced"]
+    expected_probes = ["stack_ge3", "stack_full_truncated", "pushd_minus", "auto_pushd_push", "chdir_fault_fired", "fs_fault_applied", "target_unsearchable", "stack_entry_vanished", "cwd_removed", "cwd_renamed", "must_fail_ops", "rotation_ops", "cdpath_hit", "symlink_target", "ctx_block", "ctx_body_moves", "roundtrip_judged", "fixcwd_resynced", "prompt_loop_fixcwd"]
 
     def warmup(self):
         procworld.warm(extra_traced=())
@@ -226,6 +226,7 @@ class C16(Engine):
             "start": rng.choice(("@/a", "@/a/b", "@/d", "@/home", "@", "@/la/b", "@/t1")),
             "oldpwd": rng.choice((None, "@/d", "@/a/b/c")),
             "stack0": [rng.choice(ABS_ARGS[:12]) for _ in range(n0)],
+            "prompt_loop": rng.random() < 0.6,
             "ops": [self._gen_op(rng) for _ in range(n)],
         }
 
@@ -633,6 +634,9 @@ class C16(Engine):
             self._viol(clause, f"stack is {post['stack']}, the documented rule gives {new_stack} (before: PWD={pre['PWD']!r} stack={pre['stack']}, $PUSHD_MINUS={flags['minus']})", **base, minus=flags["minus"])
         if k == "dirs":
             self._judge_dirs(op, args, pre, out)
+        if self.prompt_loop and not self.V:
+            # the prompt loop calls _fix_cwd() after every command: on a shell that is in step it must be a no-op
+            self._fix_and_judge("cmd:" + k)
 
     def _judge_dirs(self, op, args, pre, out):
         L = [pre["PWD"]] + pre["stack"]
@@ -730,6 +734,8 @@ class C16(Engine):
         self._fix_and_judge("fs:" + what)
 
     def _fix_and_judge(self, after):
+        if after.startswith("cmd:"):
+            self.probes["prompt_loop_fixcwd"] += 1
         pre = self._observe()
         sh = _Shell()
         try:
@@ -739,6 +745,14 @@ class C16(Engine):
             return
         post = self._observe()
         if post["cwd"] is None:
+            return
+        if after.startswith("cmd:") and self._insync(pre) and (post["PWD"], post["OLDPWD"]) != (pre["PWD"], pre["OLDPWD"]):
+            self._viol(
+                "fixcwd.noop",
+                f"$PWD named the working directory after `{after[4:]}`, yet the prompt loop's _fix_cwd() rewrote $PWD {pre['PWD']!r} -> {post['PWD']!r} and $OLDPWD {pre['OLDPWD']!r} -> {post['OLDPWD']!r} (cwd {post['cwd']!r})",
+                after="cmd",
+                symlinked=os.path.realpath(pre["PWD"]) != pre["PWD"],
+            )
             return
         if not self._insync(post):
             self._viol("fixcwd.resyncs", f"after {after} and _fix_cwd(): $PWD={post['PWD']!r} but the working directory is {post['cwd']!r}", after=after.split(":")[0])
@@ -891,6 +905,7 @@ class C16(Engine):
         self.nontrivial = False
         self.judged = self.unjudged = 0
         self.fs_dirty = False
+        self.prompt_loop = case.get("prompt_loop", False)
         self.step = -1
         for i, op in enumerate(case["ops"]):
             self.step = i
